@@ -71,10 +71,15 @@ def conclude(prop, tier, seed, results, t0, P):
     shutil.rmtree(os.path.join(OUT, prop), ignore_errors=True)
     os.makedirs(os.path.join(OUT, prop), exist_ok=True)
     violations = []; known_hits = []; unconfirmed = []
+    budget = 14 if tier == 'quick' else 40          # native replays per run (each may wait on a watchdog)
+    skipped = []
     for key, lst in sorted(groups.items(), key=lambda kv: str(kv[0])):
         role = lst[0][0]
         ent = [e for e in known.get('known', []) if matches(e, role)]
         reproduced = None; tried = 0
+        if budget <= 0 and violations:
+            skipped.append(role); continue
+        budget -= 1
         for role_, f in lst[:4]:
             w = f.get('witness')
             if w is None: continue
@@ -102,6 +107,8 @@ def conclude(prop, tier, seed, results, t0, P):
     for role, path, f in violations:
         print(f"VIOLATION property={prop} replay={path}")
         print(f"  {role['shape']} {role['op']}: {role['clause']}" + (f" -- {f.get('msg')}" if f.get('msg') else ''))
+    if skipped:
+        print(f"NOTE property={prop}: {len(skipped)} further failing claim group(s) were not replayed (replay budget of this run used up), e.g. {skipped[0]['shape']} {skipped[0]['op']}: {skipped[0]['clause']}")
     for role, f, why in unconfirmed:
         print(f"UNCONFIRMED property={prop} {role['shape']} {role['op']}: {role['clause']} -- solver witness did not reproduce natively ({why})")
     for r in inconc[:10]:
